@@ -17,8 +17,8 @@ RULE = ("requests `genxml <xml> <definition> - <opts> <skip> <kind> <r> (<chunks
         "2..8 packets built by the encoder (steered into every container, plus dead ends and wrong lengths), delivered as "
         "bytes / file / socket in random fragmentations with prefix bytes; non-trivial = at least one parsed packet is "
         "yielded; distinct = distinct request line")
-ASSUMPTIONS = ["the XML is produced by the library's own writer from generated objects and then re-loaded; lexical variation "
-               "of documents is C16's subject", "floats cross the protocol as exact fractions"]
+ASSUMPTIONS = ["the XML is produced by the library's own writer from generated objects, or by the harness's independent "
+               "writer with the container elements in any order, and then loaded; lexical variation of documents is C16's subject", "floats cross the protocol as exact fractions"]
 MODEL_IS_SPEC = True
 _cache = {}
 
@@ -37,6 +37,11 @@ def make_doc(rng):
         warnings.simplefilter("ignore")
         obj.date = "2024-01-01T00:00:00"
         xml = ET.tostring(obj.to_xml_tree(), pretty_print=True, xml_declaration=True, encoding="utf-8")
+        if rng.random() < 0.5:
+            # the same definition written by the harness's own writer, with the SequenceContainer elements in any order
+            # (derived before base, nesting before nested)
+            from harness import xmlgen
+            xml = xmlgen.document(rng, d.sexpr(), xmlgen.Spelling("prefix", "xtce"), decorate=False)
         loaded = definitions.XtcePacketDefinition.from_xtce(io.BytesIO(xml))
     # the reference definition is the generator's own (objects built from its syntax), NOT what the library's loader
     # made of the document: a loader that misreads the document then disagrees with the model instead of feeding it
@@ -44,7 +49,8 @@ def make_doc(rng):
 
     def canon(text):
         t = parse_sx(c09.norm_num(text))[0]
-        return sx([t[0], t[1], sorted(t[2], key=lambda c: c[1])])      # the container table's order is a traversal artefact
+        # the container table's order, and the order within an inheritor list (a set, C17), are artefacts of document order
+        return sx([t[0], t[1], sorted(([c[:5] + [sorted(c[5])] + c[6:] for c in t[2]]), key=lambda c: c[1])])
     return d, xml, (got if canon(ref) == canon(got) else ref)
 
 
